@@ -12,4 +12,5 @@ for id in "$@"; do
   echo "$out" | grep -E "^(SUMMARY|INFRA|INCONCLUSIVE)" | head -3
   echo "$out" | grep -A1 "^VIOLATION" | grep "what:" | head -3
 done
-rm -rf "$d" /verif/harness/.alt-* /verif/harness/bin/*-$(echo "$d" | md5sum | cut -c1-8) 2>/dev/null
+sfx=$(echo "$d" | md5sum | cut -c1-8)
+rm -rf "$d" /verif/harness/.alt-$sfx /verif/harness/bin/*-$sfx 2>/dev/null
